@@ -379,11 +379,23 @@ func verifBodyHistory(s *verifEngC, gc *check.C) {
 	// variables are in use for booting
 	verifSnapName, snapID, snapType := "some-snap", "some-snap-id", "app"
 	isKernel := (c.Active("C12") || c.Active("C11")) && c.Draw("kernel-snap", 4) == 3
+	bootVar, bootFile := "snap_kernel", "kernel_%d.snap"
 	if isKernel {
 		verifSnapName, snapID, snapType = "kernel", "kernel-id", "kernel"
 		onClassic = false
 		c.Count("probe:kernel-snap-history")
 	}
+	// ... or the core snap of a UC16 device, which is the boot base although
+	// the model names no base
+	isCore := !isKernel && (c.Active("C12") || c.Active("C11")) && c.Draw("core-snap", 5) == 4
+	if isCore {
+		verifSnapName, snapID, snapType = "core", "core-snap-id", "os"
+		bootVar, bootFile = "snap_core", "core_%d.snap"
+		onClassic = false
+		c.Count("probe:core-snap-history")
+	}
+	bootSnap := isKernel || isCore
+	tryVar := strings.Replace(bootVar, "snap_", "snap_try_", 1)
 	defer release.MockOnClassic(onClassic)()
 	s.wrapHandlers()
 	defer s.releaseAll()
@@ -413,7 +425,7 @@ func verifBodyHistory(s *verifEngC, gc *check.C) {
 	// initial installation: 1-3 kept revisions, current is any of them
 	initial := &verifWorld{mounted: map[string]map[int]bool{"core": {1: true}}, linked: map[string]int{"core": 1}}
 	nextRev := 1
-	installed := c.Draw("initially-installed", 4) != 3 || isKernel
+	installed := c.Draw("initially-installed", 4) != 3 || bootSnap
 	st.Lock()
 	if installed {
 		nk := 1 + c.Draw("initial-kept", 4)
@@ -455,8 +467,8 @@ func verifBodyHistory(s *verifEngC, gc *check.C) {
 		copiesBefore := beforeWorld.copies
 		// revisions the bootloader names are in use for booting
 		inUse := map[int]bool{}
-		if isKernel && have {
-			vars := map[string]string{"snap_kernel": fmt.Sprintf("kernel_%d.snap", before.Current.N), "snap_try_kernel": "", "snap_mode": ""}
+		if bootSnap && have {
+			vars := map[string]string{bootVar: fmt.Sprintf(bootFile, before.Current.N), tryVar: "", "snap_mode": ""}
 			inUse[before.Current.N] = true
 			if len(bseq) > 1 && c.Draw("boot-vars", 2) == 1 {
 				// the window between snapd switching the current revision (refresh or
@@ -464,15 +476,15 @@ func verifBodyHistory(s *verifEngC, gc *check.C) {
 				// the current one is being tried
 				b := bseq[c.Draw("booted-rev", len(bseq))]
 				if b != before.Current.N {
-					vars["snap_kernel"] = fmt.Sprintf("kernel_%d.snap", b)
-					vars["snap_try_kernel"] = fmt.Sprintf("kernel_%d.snap", before.Current.N)
+					vars[bootVar] = fmt.Sprintf(bootFile, b)
+					vars[tryVar] = fmt.Sprintf(bootFile, before.Current.N)
 					vars["snap_mode"] = "try"
 					inUse[b] = true
 					c.Count("probe:try-and-current-kernel-both-in-use")
 				}
 			}
 			s.bl.SetBootVars(vars)
-			if c.Active("C12") && len(bseq) > 1 && c.Draw("uc20-plan-probe", 3) == 2 {
+			if isKernel && c.Active("C12") && len(bseq) > 1 && c.Draw("uc20-plan-probe", 3) == 2 {
 				verifC12UC20PlanProbe(s, st, bseq, before.Current.N, nextRev)
 			}
 		}
@@ -490,6 +502,9 @@ func verifBodyHistory(s *verifEngC, gc *check.C) {
 		}
 		if c.Active("C13") && c.Draw("c13-more-reverts", 2) == 1 {
 			op = 3 + c.Draw("c13-revert-kind", 2) // sequences of reverts in both directions are where the blocked set gets subtle
+		}
+		if isCore && (op == 6 || op == 8) {
+			op = 0 // the boot base is neither disabled nor removed
 		}
 		if isKernel && (op == 6 || op == 8 || op == 2) {
 			// the model's kernel is neither disabled nor removed; a refresh to a
